@@ -6,6 +6,7 @@
    `run ops` = the state after executing ANY list of construction calls from the empty heap, legal or not. *)
 From Coq Require Import ZArith List Bool Arith Lia.
 From V Require Import Model.Build Spec.C11 Proofs.C11.Registered Proofs.C11.Integrity Proofs.C11.Main.
+From V Require Import Model.BuildIface Proofs.C11.Interface.
 Import ListNotations.
 
 (* ---- invariants over every construction sequence ------------------------------------------------------- *)
@@ -154,6 +155,127 @@ Example C11_integrity_nonvacuous :
   checkIntegrity (run (ex_ops ++ [NewWire 0 2%Z 1%Z; AddIn 1 1%Z 2])) 0 = IRaise.
 Proof. vm_compute; auto. Qed.
 
+(* ---- interface calls (session 5; Model/BuildIface.v, Proofs/C11/Interface.v) ------------------------------------------
+   Logic.addInterfaceSource / addInterfaceSink (py4hw/base.py 102-171) are loops of OutPort / InPort constructions, i.e.
+   DERIVED lists of the calls AddOut / AddIn above (add_interface_source / add_interface_sink), executed until the first
+   one that raises (run_abort).  `irun xs` = the state after ANY list of calls, primitive (Prim o) or interface calls
+   (AddIfaceSource o prefix i / AddIfaceSink o prefix i), legal or not, complete or aborted half-way. *)
+
+(* every such state is reached by some list of primitive calls: so EVERY invariant above holds of it *)
+Theorem C11_interface_ops_preserve_invariants : forall xs,
+  (exists ops, irun xs = run ops) /\
+  single_driver (irun xs) /\ unique_children (irun xs) /\ unique_wires (irun xs) /\ all_registered (irun xs) /\
+  sinks_exact (irun xs) /\ sources_exact (irun xs) /\ tree_ok (irun xs) /\
+  (forall w q q', w < nwire (irun xs) -> wbidir (irun xs) w = false ->
+                  driver (irun xs) q w -> driver (irun xs) q' w -> q = q').
+Proof. exact interface_ops_preserve_invariants. Qed.
+
+(* a source call that returned on a PRIMITIVE block registered that block's new out-port as THE source of every
+   sourceToSink wire that is an ordinary Wire (the sink call: of every sinkToSource wire) *)
+Theorem C11_interface_source_call_registers : forall xs A preA i s1,
+  istep (irun xs) (AddIfaceSource A preA i) = (s1, Ok) -> oprim (irun xs) A = true ->
+  forall sg w, In (sg, w) (sourceToSink i) -> wbidir (irun xs) w = false ->
+  w < nwire (irun xs) /\ A < nobj (irun xs) /\
+  exists qa, nport (irun xs) <= qa < nport s1 /\ prow s1 qa = (POut, A, port_name preA sg, w) /\ wsource s1 w = Some qa.
+Proof. exact source_call_registers. Qed.
+Theorem C11_interface_sink_call_registers : forall xs B preB i s1,
+  istep (irun xs) (AddIfaceSink B preB i) = (s1, Ok) -> oprim (irun xs) B = true ->
+  forall sg w, In (sg, w) (sinkToSource i) -> wbidir (irun xs) w = false ->
+  w < nwire (irun xs) /\ B < nobj (irun xs) /\
+  exists qb, nport (irun xs) <= qb < nport s1 /\ prow s1 qb = (POut, B, port_name preB sg, w) /\ wsource s1 w = Some qb.
+Proof. exact sink_call_registers. Qed.
+
+(* a SECOND SOURCE on the same interface is rejected exactly like a second driver.  PRIMITIVE blocks A, C (they have
+   propagate() / clock()): A's source call returned, then ANY calls ys; if some sourceToSink wire is an ordinary Wire,
+   C's source call raises Wire.setSource's error for a sourceToSink wire; and if the FIRST sourceToSink wire is an ordinary
+   Wire the call raises at once and changes nothing (like C11_raise_unchanged).
+   Guards: the calls name existing objects (A's call returning already implies it for A and the sourceToSink wires). *)
+Theorem C11_interface_second_source_rejected : forall xs ys A C preA preC i s1 sg w,
+  istep (irun xs) (AddIfaceSource A preA i) = (s1, Ok) ->
+  oprim (irun xs) A = true -> C < nobj (irun xs) -> oprim (irun xs) C = true ->
+  (forall e, In e (sinkToSource i) -> snd e < nwire (irun xs)) ->
+  In (sg, w) (sourceToSink i) -> wbidir (irun xs) w = false ->
+  let s2 := irun (xs ++ AddIfaceSource A preA i :: ys) in
+  (exists sg' w', In (sg', w') (sourceToSink i) /\ snd (istep s2 (AddIfaceSource C preC i)) = Raise (CDriver w')) /\
+  (forall rest, sourceToSink i = (sg, w) :: rest -> istep s2 (AddIfaceSource C preC i) = (s2, Raise (CDriver w))).
+Proof. exact second_source_rejected. Qed.
+
+(* the same from ANY constructed state in which a sourceToSink (resp. sinkToSource) wire has a registered source, however
+   it got it (addOut of another block, another interface sharing the wire through add...Ref): the call of a primitive
+   block raises for a wire of that list, and that wire is driven in the state the call leaves behind *)
+Theorem C11_interface_source_on_driven_rejected : forall xs C preC i sg w q,
+  let s := irun xs in
+  C < nobj s -> oprim s C = true ->
+  (forall e, In e (sourceToSink i ++ sinkToSource i) -> snd e < nwire s) ->
+  In (sg, w) (sourceToSink i) -> wbidir s w = false -> wsource s w = Some q ->
+  (exists sg' w' q', In (sg', w') (sourceToSink i) /\ wbidir s w' = false /\
+                     wsource (iexec s (AddIfaceSource C preC i)) w' = Some q' /\
+                     snd (istep s (AddIfaceSource C preC i)) = Raise (CDriver w')) /\
+  (forall rest, sourceToSink i = (sg, w) :: rest -> istep s (AddIfaceSource C preC i) = (s, Raise (CDriver w))).
+Proof. exact source_on_driven_rejected. Qed.
+Theorem C11_interface_sink_on_driven_rejected : forall xs C preC i sg w q,
+  let s := irun xs in
+  C < nobj s -> oprim s C = true ->
+  (forall e, In e (sourceToSink i ++ sinkToSource i) -> snd e < nwire s) ->
+  In (sg, w) (sinkToSource i) -> wbidir s w = false -> wsource s w = Some q ->
+  exists sg' w' q', In (sg', w') (sinkToSource i) /\ wbidir s w' = false /\
+                    wsource (iexec s (AddIfaceSink C preC i)) w' = Some q' /\
+                    snd (istep s (AddIfaceSink C preC i)) = Raise (CDriver w').
+Proof. exact sink_on_driven_rejected. Qed.
+
+(* STRUCTURAL block (no propagate / clock), as the model has it for addOut: its ports never register a source, so its
+   interface calls are ALWAYS accepted -- two structural sources on one interface included -- and leave source, sinks and
+   sources of every wire as they were (connectivity of structural ports is resolved by the flattening, outside C11) *)
+Theorem C11_interface_structural_accepted : forall xs C preC i,
+  let s := irun xs in
+  C < nobj s -> oprim s C = false ->
+  (forall e, In e (sourceToSink i ++ sinkToSource i) -> snd e < nwire s) ->
+  (snd (istep s (AddIfaceSource C preC i)) = Ok /\
+   forall x, wsource (iexec s (AddIfaceSource C preC i)) x = wsource s x /\
+             wsinks (iexec s (AddIfaceSource C preC i)) x = wsinks s x /\
+             wsources (iexec s (AddIfaceSource C preC i)) x = wsources s x) /\
+  (snd (istep s (AddIfaceSink C preC i)) = Ok /\
+   forall x, wsource (iexec s (AddIfaceSink C preC i)) x = wsource s x /\
+             wsinks (iexec s (AddIfaceSink C preC i)) x = wsinks s x /\
+             wsources (iexec s (AddIfaceSink C preC i)) x = wsources s x).
+Proof. exact structural_interface_accepted. Qed.
+
+(* non-vacuity, on an AXI4-Stream-like interface (tvalid, tdata source->sink on wires 0, 2; tready sink->source on wire 1;
+   Model/BuildIface.v axis_pre / axis): producer block 1 (prefix 'n5'), consumer block 2 (empty prefix, as Axi2Reg passes);
+   the hypotheses of every theorem above are met; a second primitive source (block 3) is rejected at tvalid and changes
+   nothing; a second primitive sink is rejected at tready AFTER its two in-ports were created; structural blocks 4 and 5
+   are both accepted as sources and register nothing *)
+Example C11_interface_axis_example :
+  let s := irun axis_pre in
+  let s2 := irun (axis_pre ++ axis_calls) in
+  istep s (AddIfaceSource 1 (Some 5%Z) axis) = (iexec s (AddIfaceSource 1 (Some 5%Z) axis), Ok) /\
+  istep (iexec s (AddIfaceSource 1 (Some 5%Z) axis)) (AddIfaceSink 2 None axis) = (s2, Ok) /\
+  nport s = 0 /\
+  map (prow s2) (seq 0 (nport s2)) =
+    [(POut, 1, 6000%Z, 0); (POut, 1, 6002%Z, 2); (PIn, 1, 6001%Z, 1);
+     (PIn, 2, 0%Z, 0); (PIn, 2, 2%Z, 2); (POut, 2, 1%Z, 1)] /\
+  oout s2 1 = [0; 1] /\ oin s2 1 = [2] /\ oin s2 2 = [3; 4] /\ oout s2 2 = [5] /\
+  map (wsource s2) [0; 1; 2] = [Some 0; Some 5; Some 1] /\ map (wsinks s2) [0; 1; 2] = [[3]; [2]; [4]] /\
+  checkIntegrity s2 0 = IOk /\
+  istep s2 (AddIfaceSource 3 (Some 9%Z) axis) = (s2, Raise (CDriver 0)) /\
+  snd (istep s2 (AddIfaceSink 3 (Some 9%Z) axis)) = Raise (CDriver 1) /\
+  nport (iexec s2 (AddIfaceSink 3 (Some 9%Z) axis)) = 8 /\
+  snd (istep s2 (AddIfaceSource 4 (Some 9%Z) axis)) = Ok /\
+  snd (istep (iexec s2 (AddIfaceSource 4 (Some 9%Z) axis)) (AddIfaceSource 5 (Some 9%Z) axis)) = Ok /\
+  map (wsource (iexec (iexec s2 (AddIfaceSource 4 (Some 9%Z) axis)) (AddIfaceSource 5 (Some 9%Z) axis))) [0; 1; 2] =
+    [Some 0; Some 5; Some 1].
+Proof. exact axis_example. Qed.
+(* the interface CALL, unlike each primitive call (C11_raise_unchanged), is NOT atomic: tdata (wire 2) is already driven by
+   block 3; block 1's source call raises at tdata, but the tvalid out-port it created first stays and is now the registered
+   source of wire 0 (same on the real classes: docs/C11.md, finding F-iface) *)
+Example C11_interface_source_conflict_not_atomic :
+  let s := irun (axis_pre ++ [Prim (AddOut 3 0%Z 2)]) in
+  let s' := iexec s (AddIfaceSource 1 None axis) in
+  snd (istep s (AddIfaceSource 1 None axis)) = Raise (CDriver 2) /\
+  nport s = 1 /\ nport s' = 2 /\ prow s' 1 = (POut, 1, 0%Z, 0) /\ oout s' 1 = [1] /\
+  wsource s 0 = None /\ wsource s' 0 = Some 1 /\ wsource s' 2 = Some 0.
+Proof. exact source_conflict_not_atomic. Qed.
+
 Print Assumptions C11_single_driver.
 Print Assumptions C11_at_most_one_driver.
 Print Assumptions C11_unique_children.
@@ -174,3 +296,10 @@ Print Assumptions C11_integrity_bidir_refuted.
 Print Assumptions C11_checked_predicates_exact.
 Print Assumptions C11_checked_frames_exact.
 Print Assumptions C11_checked_integrity_exact.
+Print Assumptions C11_interface_ops_preserve_invariants.
+Print Assumptions C11_interface_source_call_registers.
+Print Assumptions C11_interface_sink_call_registers.
+Print Assumptions C11_interface_second_source_rejected.
+Print Assumptions C11_interface_source_on_driven_rejected.
+Print Assumptions C11_interface_sink_on_driven_rejected.
+Print Assumptions C11_interface_structural_accepted.
